@@ -1093,24 +1093,37 @@ class C09(PropertyCheck):
         return None
 
     def shrink(self, case):
+        """drop one unmasked pixel (with its sub-size entry, its block of values, its grid row), lower a
+        sub-size, shorten the schedule."""
         mj = case["mask"]
         bits = mj["bits"]
-        if case["kind"] == "uniform":
-            return
-        if case["kind"] in ("func", "iterate") and isinstance(case.get("sub", 1), list):
-            return
-        if "grid" in case:
-            return
-        # mask more pixels
-        for i, c in enumerate(bits):
-            if c == "0" and bits.count("0") > 1:
-                c2 = {k: v for k, v in case.items() if not k.startswith("_")}
+        base = {k: v for k, v in case.items() if not k.startswith("_") and k != "corpus_file"}
+        un = [i for i, c in enumerate(bits) if c == "0"]
+        n = len(un)
+        if n > 1:
+            for k, i in enumerate(un):
+                c2 = dict(base)
                 c2["mask"] = {**mj, "bits": bits[:i] + "1" + bits[i + 1:]}
+                sub = case.get("sub")
+                if isinstance(sub, list):
+                    c2["sub"] = sub[:k] + sub[k + 1:]
+                if case["kind"] == "uniform":
+                    full = expand_sub(case, n)
+                    off = sum(s * s for s in full[:k])
+                    c2["values"] = case["values"][:off] + case["values"][off + full[k] ** 2:]
+                if "grid" in case:
+                    c2["grid"] = case["grid"][:k] + case["grid"][k + 1:]
                 yield c2
-        # shorten the schedule
+        sub = case.get("sub")
+        if isinstance(sub, list) and case["kind"] != "uniform":
+            for k, sk in enumerate(sub):
+                if sk > 1:
+                    c2 = dict(base)
+                    c2["sub"] = sub[:k] + [1] + sub[k + 1:]
+                    yield c2
         if case["kind"] == "iterate" and "table" not in case and len(case["steps"]) > 1:
             for i in range(len(case["steps"])):
-                c2 = {k: v for k, v in case.items() if not k.startswith("_")}
+                c2 = dict(base)
                 c2["steps"] = case["steps"][:i] + case["steps"][i + 1:]
                 yield c2
 
@@ -1119,8 +1132,9 @@ class C09(PropertyCheck):
             return ["C09.a_grid_eq_partition_centres", "C09.b_slimForSubSlim", "C09.c_binned_is_mean",
                     "C09.c_areas_sum"]
         if case["kind"] == "func":
-            return ["C09.d_decorated", "C09.c_binned_is_mean"]
-        return ["C09.e_iterate_first_agreeing_level", "C09.e_early_return"]
+            return ["C09.c_via_func_is_cell_mean", "C09.d_decorated_from_mask", "C09.d_decorated_dispatch"]
+        return ["C09.e_iterate_first_agreeing_level", "C09.e_table_loop", "C09.e_early_return",
+                "C09.d_decorated_iterate"]
 
     def sample_view(self, case):
         return {k: v for k, v in case.items() if not k.startswith("_")}
